@@ -10,14 +10,23 @@
   with the normalized document (`C06_normalizes_first`), and that the rendering is
   empty iff no error is recorded for well-shaped error lists (`C06_errors_empty`).
   The decomposition clause (validate = normalization errors + validate of the
-  normalized document without normalization, for schemas without `readonly`) is
-  stated in `C06_decompose_partial` for what is proved (the normalization half
-  and the document); the validation half needs the invariance of validation under
-  the `_is_normalized` marker for readonly-free schemas and is decided by the port
-  and the oracle (harness/props/c06.py).
+  normalized document without normalization, for schemas without `readonly`):
+  `C06_decompose_partial` is the half that holds for every schema (normalization errors
+  first, then the validation of the normalized document on the same instance, marker
+  set); `C06_decompose` is the full clause for tables in which the rule `readonly` is
+  never queued (`V.NoReadonly`): the second part *is* a separate
+  `validate(normalized(d), normalize=False)` — Proofs/Marker.lean shows that the
+  `_is_normalized` marker and the errors recorded so far are read by the `readonly`
+  handler only, at every depth.  `C06_queue_without_readonly` is the bridge to schemas:
+  a rule set that does not name `readonly` has the same queue under the real tables and
+  under the tables with `readonly` removed (`C06_readonly_not_mandatory` on the extracted
+  tables).  That a schema without `readonly` at any depth therefore validates identically
+  under both tables is the composition of this bridge over all nested rule sets; it is
+  checked by the port and the oracle (harness/props/c06.py), not proved.
 -/
 import Cerberus.Model.Api
 import Cerberus.Proofs.Validate
+import Cerberus.Proofs.Marker
 import Cerberus.Props.C13
 namespace Cerberus
 open Api
@@ -131,6 +140,96 @@ theorem C06_decompose_partial (env : Env) (t : Tables) (f : Nat) (ctx : Ctx) (sc
       obtain ⟨h1, h2⟩ := h
       subst h1 h2
       exact ⟨nerrs, rfl, hv⟩
+
+/-- tables in which the rule `readonly` never enters a queue -/
+def Tables.withoutReadonly (t : Tables) : Tables :=
+  { t with priority := t.priority.filter (fun x => x != "readonly"),
+           mandatory := t.mandatory.filter (fun x => x != "readonly"),
+           nonQueue := "readonly" :: t.nonQueue }
+
+theorem noReadonly_withoutReadonly (t : Tables) : V.NoReadonly t.withoutReadonly := by
+  intro names h
+  simp only [V.buildQueue, Tables.withoutReadonly, List.mem_append, List.mem_filter, List.mem_eraseDups,
+    List.contains_cons] at h
+  rcases h with (h | h) | h
+  · simp at h
+  · simp at h
+  · simp at h
+
+/-- **the decomposition clause.**  With tables in which `readonly` is never queued:
+    `validate(d)` records exactly the normalization errors of `normalized(d)` followed by
+    the errors of a separate `validate(normalized(d), normalize=False)`, and ends with the
+    same processed document — for every schema, option set, document and `update`. -/
+theorem C06_decompose (env : Env) (t : Tables) (ht : V.NoReadonly t) (f : Nat) (ctx : Ctx) (schema : Val)
+    (doc : List (Key × Val)) (upd : Bool) (m : List (Key × Val)) (es : List Err)
+    (h : validateN env t (f + 1) ctx schema doc upd = .ok (m, es)) :
+    ∃ nerrs verrs, normalize env (f + 1) ctx schema doc = .ok (m, nerrs) ∧
+      validate0 env t (f + 1) ctx schema (.dict m) upd = .ok verrs ∧ es = nerrs ++ verrs := by
+  obtain ⟨nerrs, hn, hv⟩ := C06_decompose_partial env t f ctx schema doc upd m es h
+  have hs := V.validateMapping_sn env t ht (validate0 env t f) (V.validate0_insens env t ht f) true ctx schema
+    (.dict m) upd nerrs []
+  have hv' : V.validateMapping env t (validate0 env t f) (V.sn true ctx) schema (.dict m) upd nerrs [] = .ok es := hv
+  rw [hs] at hv'
+  cases hr : V.validateMapping env t (validate0 env t f) ctx schema (.dict m) upd [] [] with
+  | error e => rw [hr] at hv'; simp [Except.map] at hv'
+  | ok verrs =>
+    rw [hr] at hv'
+    simp only [Except.map, Except.ok.injEq] at hv'
+    exact ⟨nerrs, verrs, hn, by simp [validate0, hr], hv'.symm⟩
+
+/-- … and conversely: the two separate calls determine `validate(d)` -/
+theorem C06_compose (env : Env) (t : Tables) (ht : V.NoReadonly t) (f : Nat) (ctx : Ctx) (schema : Val)
+    (doc : List (Key × Val)) (upd : Bool) (m : List (Key × Val)) (nerrs verrs : List Err)
+    (hn : normalize env (f + 1) ctx schema doc = .ok (m, nerrs))
+    (hv : validate0 env t (f + 1) ctx schema (.dict m) upd = .ok verrs) :
+    validateN env t (f + 1) ctx schema doc upd = .ok (m, nerrs ++ verrs) := by
+  have hs := V.validateMapping_sn env t ht (validate0 env t f) (V.validate0_insens env t ht f) true ctx schema
+    (.dict m) upd nerrs []
+  simp only [validate0] at hv
+  rw [hv] at hs
+  have hs0 : V.validateMapping env t (validate0 env t f) (V.sn true ctx) schema (.dict m) upd nerrs [] =
+      .ok (nerrs ++ verrs) := by simpa [Except.map] using hs
+  have hs' : V.validateMapping env t (validate0 env t f) { ctx with cfg := { ctx.cfg with isNormalized := true } }
+      schema (.dict m) upd nerrs [] = .ok (nerrs ++ verrs) := hs0
+  simp only [validateN, validateNS, hn, bind, Except.bind, List.nil_append, hs', pure, Except.pure]
+
+/-- the bridge to schemas: a rule set that does not name `readonly` has the same queue under
+    tables `t` (in which `readonly` is not mandatory) and under `t.withoutReadonly` -/
+theorem C06_queue_without_readonly (t : Tables) (names : List String)
+    (hm : "readonly" ∉ t.mandatory) (hn : "readonly" ∉ names) :
+    V.buildQueue t.withoutReadonly names = V.buildQueue t names := by
+  have hq1 : ((t.priority.filter (fun x => x != "readonly")).filter
+      (fun x => names.contains x || (t.mandatory.filter (fun x => x != "readonly")).contains x)) =
+      t.priority.filter (fun x => names.contains x || t.mandatory.contains x) := by
+    rw [List.filter_filter]
+    apply List.filter_congr
+    intro x _
+    by_cases hx : x = "readonly"
+    · subst hx
+      simp
+      exact ⟨hn, hm⟩
+    · have : (t.mandatory.filter (fun x => x != "readonly")).contains x = t.mandatory.contains x := by
+        cases hc : t.mandatory.contains x
+        · have : x ∉ t.mandatory := by simpa using hc
+          simp [this]
+        · have : x ∈ t.mandatory := by simpa using hc
+          simp [this, hx]
+      simp [hx, this]
+  have hmand : t.mandatory.filter (fun x => x != "readonly") = t.mandatory := by
+    apply List.filter_eq_self.mpr
+    intro x hx
+    have : x ≠ "readonly" := fun e => hm (e ▸ hx)
+    simpa using this
+  simp only [V.buildQueue, Tables.withoutReadonly]
+  rw [hq1, hmand]
+  congr 2
+  apply List.filter_congr
+  intro x hx
+  have : x ≠ "readonly" := fun e => hn (e ▸ hx)
+  simp [this]
+
+/-- in the tables extracted from the live class `readonly` is not mandatory -/
+theorem C06_readonly_not_mandatory : "readonly" ∉ Extracted.tables.mandatory := by decide
 
 /-- **the errors property is empty iff no error is recorded** — for recorded
     lists in which every error contributes a message (`1 ≤ nMsg e`: group errors
